@@ -299,6 +299,22 @@ theorem vclip_monotone (lo hi : Option Rat) (xs : List (Option Rat)) (i j : Nat)
   · rw [vclip_getElem?, hx]; rfl
   · rw [vclip_getElem?, hy]; rfl
 
+/-- **idempotent**: clipping a second time to the same ordered bounds changes nothing (every
+clipped value already lies inside the interval) -/
+theorem vclip_idempotent (lo hi : Option Rat) (xs : List (Option Rat)) (ho : Ordered lo hi) :
+    vclip lo hi (vclip lo hi xs) = vclip lo hi xs := by
+  apply List.ext_getElem?
+  intro i
+  rw [vclip_getElem?, vclip_getElem?]
+  cases xs[i]? with
+  | none => rfl
+  | some v =>
+    cases v with
+    | none => rfl
+    | some x =>
+      have hw := clipVal_within lo hi x ho
+      simp [clipVal_inside lo hi (clipVal lo hi x) hw.1 hw.2]
+
 /-- without the ordering of the bounds clipping is *not* order preserving (so the ordering of
 the three methods' bounds is what the "therefore" of the property rests on) -/
 theorem vclip_unordered_not_monotone :
@@ -398,6 +414,14 @@ theorem bounds_ordered (sqrt : Rat → Rat) (hs : ∀ x, 0 ≤ sqrt x) (m : Meth
   | quantile => exact bounds_quantile_ordered sqrt p hp xs
   | median => exact bounds_median_ordered sqrt p hp xs
   | sigma => exact bounds_sigma_ordered sqrt hs p hp xs
+
+/-- winsorizing an already winsorized column *to the same bounds* changes nothing -/
+theorem winsorize_reclip (sqrt : Rat → Rat) (hs : ∀ x, 0 ≤ sqrt x) (m : Method) (p : Option Rat)
+    (hp : ParamOk m p) (xs : List (Option Rat)) :
+    vclip (bounds sqrt m p xs).1 (bounds sqrt m p xs).2 (winsorize sqrt m p xs)
+      = winsorize sqrt m p xs := by
+  rw [winsorize_is_vclip]
+  exact vclip_idempotent _ _ _ (bounds_ordered sqrt hs m p hp xs)
 
 /-- **winsorizing acts as clipping to one interval** (the from-scratch `max lo (min x hi)`) for
 every method and every parameter in the documented range -/
